@@ -175,6 +175,7 @@ def handleMode (ms : Option MSt) (cmd : String) (args : List V) : Option (Option
   | "mode.op", [.sym "allow"] => do let s ← ms; let r := mstep s .allowWrite; pure (some r.1, mstV s r)
   | "mode.op", [.sym "enter"] => do let s ← ms; let r := mstep s .enter; pure (some r.1, mstV s r)
   | "mode.op", [.sym "exit"] => do let s ← ms; let r := mstep s .exit; pure (some r.1, mstV s r)
+  | "mode.op", [.sym "enter-interrupted"] => do let s ← ms; let r := mstep s .enterInterrupted; pure (some r.1, mstV s r)
   | "mode.read", [.int i, .int n] => do let s ← ms; let r := mstep s (.read (i != 0) (n != 0)); pure (some r.1, mstV s r)
   | "mode.mut", [.list (.sym c :: a), .int i] => do
       let s ← ms; let op ← opOf c a
